@@ -8,7 +8,12 @@ that is parsed with DIP.parse) and compared with a reference evaluator over the 
 (mc/refmodels/dip_expr_ref.py: exact Fraction arithmetic with a propagated error scale, documented priorities,
 Python format()).
 
-Two further dimensions: (a) comparisons on magnitudes far below 1e-8 in the unit of the typed node (1e-9 m, 2 nm,
+Three further dimensions: (z) comparisons at the value zero and below it: zero-valued float / int nodes (0 m, 0 cm, 0,
+int 0, int 0 cm) and zero literals (integer and decimal notation, with and without unit, in the unit of the node and in
+another unit of the same dimension) on both sides of all six operators - two exact zeros are equal under every reading
+of the tolerance, so == <= >= hold and != < > do not; zero against positive / negative / tiny values; negative nodes
+(-2.5 m, -0.5, int -3, int -150 cm) against negative literals at relative offsets 0, 1e-9, 1e-5, 4e-2 on both sides
+(the sign of the tolerance term); (a) comparisons on magnitudes far below 1e-8 in the unit of the typed node (1e-9 m, 2 nm,
 4e-12; the tolerance is relative, so absolute differences of 1e-19 .. 1e-8 decide exactly as they do around 1);
 (b) sequences of DOCUMENTS in one process that define the custom unit symbol [len] differently (2 m, 5 m, 10 cm, 3 s;
 in the text or with DIP.add_unit): every document is checked against its own definition, module / class level state
@@ -16,7 +21,7 @@ of the library is restored around each sequence so that a sequence is one self-c
 
 Not demanded (left out of the alphabets on purpose; the statement / documentation is silent or ambiguous there):
   * comparisons between two anonymous literals, comparisons across dimensions (docs say "false", code refuses),
-    comparisons between an int node and a float node (the code refuses them on purpose), zero operands;
+    comparisons between an int node and a float node (the code refuses them on purpose);
   * strict comparisons (< >) of values that are equal within the tolerance unless they are identical and written in
     the same unit (otherwise float rounding of the unit conversion decides), offsets inside (1e-7, 1e-5);
   * a literal without unit compared with a dimensional node (pinned by the tests, not stated);
@@ -46,7 +51,8 @@ LEVEL = "exploration"
 RULE = ("case = (sub-check, environment/header variant, rendered expression text, requested unit); every derivation "
         "of the bounded grammars is enumerated once (families are disjoint by construction and de-duplicated by a "
         "hash of the case); non-trivial = numerical: >= 1 binary operator or function application, logical: >= 1 "
-        "comparison / negation / definedness test / connective, template: >= 1 reference; history: one ordered "
+        "comparison / negation / definedness test / connective (comparison operands include zero-valued and negative "
+        "nodes and zero literals in every notation / unit), template: >= 1 reference; history: one ordered "
         "sequence of solver calls on one environment; unit-redefinition: one ordered sequence of documents (definition "
         "of [len] x way of defining it) with the whole probe set evaluated in every document")
 ASSUMPTIONS = [
@@ -96,6 +102,16 @@ _NODES = [
     ("gap2", "float", 2.0, "nm", "gap2 float = 2 nm"),
     ("rate", "float", 4e-12, None, "rate float = 4e-12"),
     ("rate2", "float", 8e-12, None, "rate2 float = 8e-12"),
+    # zero-valued nodes (float / int, with and without unit) and negative nodes: the tolerance term of a comparison
+    # is zero at the value zero and its sign matters below zero
+    ("z", "float", 0.0, "m", "z float = 0 m"),
+    ("zc", "float", 0.0, "cm", "zc float = 0 cm"),
+    ("zf", "float", 0.0, None, "zf float = 0"),
+    ("zi", "int", 0, None, "zi int = 0"),
+    ("zk", "int", 0, "cm", "zk int = 0 cm"),
+    ("lvl", "float", -2.5, "m", "lvl float = -2.5 m"),
+    ("ni", "int", -3, None, "ni int = -3"),
+    ("nk", "int", -150, "cm", "nk int = -150 cm"),
     ("ang", "float", 30.0, "deg", "ang float = 30 deg"),
     ("slope", "int", 45, "deg", "slope int = 45 deg"),
     ("f", "bool", True, None, "f bool = true"),
@@ -551,6 +567,9 @@ def _cmp_pairs(custom):
     for n, lits in (("gap", gap_lits), ("gap2", gap2_lits), ("rate", rate_lits)):
         for l in lits:
             P.append((node(n), l))
+    for n, lits in _zero_neg_lits():
+        for l in lits:
+            P.append((node(n), l))
     for n, lits in (("a", a_lits), ("c", c_lits), ("b", b_lits), ("k", k_lits), ("x", x_lits), ("wm", wm_lits),
                     ("wt", wt_lits), ("ws", ws_lits), ("cnt", cnt_lits), ("tiny", tiny_lits), ("big", big_lits),
                     ("k3", k3_lits), ("pixels", px_lits), ("track", tr_lits)):
@@ -579,10 +598,61 @@ def _cmp_pairs(custom):
           # tiny magnitudes: same unit, and the left node converted to the unit of the right one (m -> nm, nm -> m)
           ("gap", "wide"), ("wide", "gap"), ("gap", "gap"), ("gap", "gap2"), ("gap2", "gap"), ("wide", "gap2"),
           ("gap2", "wide"), ("rate", "rate2"), ("rate2", "rate"), ("rate", "rate"), ("gap", "tiny"), ("tiny", "gap")]
+    NN += ZERO_NEG_NN
     if custom:
+        for l in (num("0", "[len]"), num("0", "[hand]"), num("0.0", "[len]")):
+            P.append((node("z"), l))
+        for l in (num("0", "[len]"), num("0", "[hand]")):
+            P.append((node("d"), l))
+            P.append((node("hh"), l))
         NN += [("a", "d"), ("d", "a"), ("d", "c"), ("dm", "a"), ("a", "dm"), ("dm", "d"), ("hh", "c"), ("c", "hh"),
                ("hh", "d"), ("dm", "hh")]
     return P, NN
+
+
+def _zero_neg_lits():
+    """zero-valued nodes against zero literals (integer / decimal notation, with and without unit, in the unit of the
+    node and in another unit of the same dimension) and against small / large / negative values; ordinary, tiny and
+    negative nodes against zero literals; negative nodes against negative literals at relative offsets 0, 1e-9, 1e-5,
+    4e-2 on both sides, in the same and in a convertible unit, and against the value of opposite sign"""
+    zero_m = [num("0", "m"), num("0", "cm"), num("0.0", "m"), num("0.0", "cm"), num("0", "km"), num("0e0", "m")]
+    return [
+        ("z", zero_m + [num("1", "m"), num("-1", "m"), num("1", "cm"), num("-1", "cm"), num("1e-9", "m"),
+                        num("-1e-9", "m"), num("5000000", "m")]),
+        ("zc", zero_m[:4] + [num("1", "cm"), num("-1", "m"), num("-1e-9", "cm")]),
+        ("zf", [num("0"), num("0.0"), num("0e0"), num("1"), num("-1"), num("0.5"), num("1e-9"), num("-4e-12")]),
+        ("zi", [num("0"), num("0.0"), num("1"), num("-1"), num("0.5"), num("-0.5"), num("4000000")]),
+        ("zk", [num("0", "cm"), num("0", "m"), num("0.0", "cm"), num("1", "cm"), num("-1", "cm"), num("1", "m"),
+                num("-1", "m")]),
+        # non-zero nodes against zero literals
+        ("a", zero_m[:4]), ("c", zero_m[:2]), ("b", [num("0"), num("0.0")]), ("x", [num("0"), num("0.0")]),
+        ("k", [num("0", "cm"), num("0", "m")]), ("neg", [num("0"), num("0.0")]), ("lvl", zero_m[:4]),
+        ("ni", [num("0"), num("0.0")]), ("nk", [num("0", "cm"), num("0", "m")]), ("rate", [num("0"), num("0.0")]),
+        ("gap", [num("0", "m"), num("0", "nm")]), ("tiny", [num("0", "m"), num("0", "mm")]),
+        ("big", [num("0", "m")]), ("wm", [num("0", "m"), num("0", "cm")]), ("cnt", [num("0")]),
+        # negative nodes against negative (and positive) literals
+        ("lvl", [num("-2.5", "m"), num("-250", "cm"), num("-2.500000002", "m"), num("-2.499999998", "m"),
+                 num("-250.0000002", "cm"), num("-2.50003", "m"), num("-2.49997", "m"), num("-250.003", "cm"),
+                 num("-2.4", "m"), num("-2.6", "m"), num("-240", "cm"), num("-260", "cm"), num("2.5", "m"),
+                 num("250", "cm"), num("-2.50", "m"), num("-25e-1", "m")]),
+        ("neg", [num("-0.5"), num("-0.5000000005"), num("-0.4999999995"), num("-0.500005"), num("-0.499995"),
+                 num("-0.48"), num("-0.52"), num("0.5"), num("-1"), num("-5e-1")]),
+        ("ni", [num("-3"), num("-2"), num("-4"), num("3"), num("-3.0"), num("-3.5"), num("-2.5"), num("-3.000000003"),
+                num("-2.999999997"), num("-3.00003"), num("-2.99997")]),
+        ("nk", [num("-150", "cm"), num("-1.5", "m"), num("-1", "m"), num("-2", "m"), num("-1.505", "m"),
+                num("-149", "cm"), num("1.5", "m"), num("-1.50000001", "m")]),
+    ]
+
+
+# node pairs: zero / zero (same and other unit), zero / positive, zero / negative, negative / negative, negative /
+# positive; float with float and int with int
+ZERO_NEG_NN = [("z", "z"), ("z", "zc"), ("zc", "z"), ("zc", "zc"), ("zf", "zf"), ("zi", "zi"), ("zk", "zk"),
+               ("z", "a"), ("a", "z"), ("zc", "a"), ("c", "z"), ("z", "lvl"), ("lvl", "z"), ("lvl", "zc"), ("z", "gap"),
+               ("gap", "zc"), ("zf", "x"), ("x", "zf"), ("zf", "neg"), ("neg", "zf"), ("zf", "rate"), ("rate", "zf"),
+               ("zi", "b"), ("b", "zi"), ("zi", "ni"), ("ni", "zi"), ("zk", "k"), ("k", "zk"), ("zk", "k2"),
+               ("k2", "zk"), ("zk", "nk"), ("nk", "zk"), ("lvl", "lvl"), ("lvl", "a"), ("a", "lvl"), ("lvl", "c"),
+               ("ni", "ni"), ("ni", "b"), ("b", "ni"), ("nk", "nk"), ("nk", "k2"), ("k2", "nk"), ("nk", "k"),
+               ("neg", "neg"), ("neg", "x"), ("x", "neg")]
 
 
 def g_cmp(custom, ops=CMP):
@@ -641,6 +711,11 @@ BM = [["bref", "fm"], ["not", ["bref", "fm"]], ["cmp", "==", node("wm"), num("50
 BT = [["cmp", "==", node("gap"), num("2", "nm")], ["cmp", "!=", node("gap"), num("2", "nm")],
       ["cmp", ">=", node("gap"), num("5", "nm")], ["cmp", "==", node("rate"), num("8e-12")],
       ["cmp", "<=", node("gap"), num("1", "nm")], ["cmp", "<", node("gap2"), node("wide")]]
+# truth atoms at the value zero and below it (true, true, false, true, true, false, true, false)
+BZ = [["cmp", ">=", node("zi"), num("0")], ["cmp", "<=", node("z"), num("0", "cm")],
+      ["cmp", ">", node("zi"), num("0")], ["cmp", "==", node("zc"), node("z")],
+      ["cmp", "<=", node("lvl"), num("-250", "cm")], ["cmp", ">=", node("neg"), num("0")],
+      ["cmp", ">=", num("0.0"), node("zf")], ["cmp", "!=", node("zk"), num("0", "m")]]
 LOPS = ["&&", "||"]
 
 
@@ -695,6 +770,9 @@ def log_streams(tier, seed):
     S.append(("log/modified-group", "custom", lambda: g_conn_group(2, BM[:4])))
     S.append(("log/tiny-conn1", "custom", lambda: g_conn(1, BT)))
     S.append(("log/tiny-group1", "plain", lambda: g_conn_group(1, BT)))
+    S.append(("log/zero-conn1", "custom", lambda: g_conn(1, BZ)))
+    S.append(("log/zero-conn2", "plain", lambda: g_conn(2, BZ[:6])))
+    S.append(("log/zero-group1", "plain", lambda: g_conn_group(1, BZ)))
     return S
 
 
@@ -711,6 +789,8 @@ def infile_log_streams(tier, seed):
     S.append(("ilog/modified2", "plain", lambda: g_conn(2, BM[:5])))
     S.append(("ilog/tiny-conn1", "plain", lambda: g_conn(1, BT)))
     S.append(("ilog/tiny-group1", "custom", lambda: g_conn_group(1, BT[:4])))
+    S.append(("ilog/zero-conn1", "plain", lambda: g_conn(1, BZ)))
+    S.append(("ilog/zero-group1", "custom", lambda: g_conn_group(1, BZ[:4])))
     return S
 
 
@@ -881,6 +961,8 @@ def _solve_num(envname, text, unit):
 
 _MODIFIED = {"wm", "ws", "wt", "cnt", "fm", "sm", "dm"}
 _TINY = {"gap", "wide", "gap2", "rate", "rate2"}
+_ZERO = {"z", "zc", "zf", "zi", "zk"}
+_NEGATIVE = {"lvl", "ni", "nk", "neg"}
 
 
 def _ref_tags(ast, tags):
@@ -891,6 +973,10 @@ def _ref_tags(ast, tags):
         tags.add("node-modified-after-definition")
     if names & _TINY:
         tags.add("node-magnitude<=1e-8")
+    if names & _ZERO:
+        tags.add("node-value-zero")
+    if names & _NEGATIVE:
+        tags.add("node-value-negative")
 
 
 def _num_tags(ast, envname, notes=()):
@@ -2070,7 +2156,15 @@ def finish(total, tier, seed):
                     "(16 ordered pairs); magnitudes 1e-3 and 5e6; magnitudes <= 1e-8 in the unit of the node (float "
                     "nodes 1e-9 m, 3e-9 m, 2 nm, 4e-12, 8e-12 vs 30 literals at relative offsets 0, 1e-10, 2e-5, 1e-3 "
                     "and factors 2 .. 1250, written in m / nm / km, 12 node pairs, && || and negated groups over 6 "
-                    "such comparisons); ~, !{ref}, ~!{ref}; && || with <=4 connectives, groups, nesting <=2",
+                    "such comparisons); the value zero and negative values: zero-valued nodes (float 0 m, 0 cm, 0; int "
+                    "0, 0 cm) vs zero literals (0 / 0.0 / 0e0, with and without unit, unit of the node and another unit "
+                    "of the dimension incl. custom units) and vs +-1, +-1e-9, 5e6; 15 non-zero / tiny / negative nodes "
+                    "vs zero literals; negative nodes (-2.5 m, -0.5, int -3, int -150 cm) vs 45 literals at relative "
+                    "offsets 0, 1e-9, 1e-5, 4e-2 on both sides, same / convertible unit, opposite sign; 46 node pairs "
+                    "(zero-zero across units, zero-positive, zero-negative, negative-negative); all six operators, "
+                    "both orders, plain / negated / parenthesised, && || and negated groups over 8 such comparisons, "
+                    "stand-alone and as bool node values; ~, !{ref}, ~!{ref}; && || with <=4 connectives, groups, "
+                    "nesting <=2",
             template="{{ref}}, {{ref}:fmt} for 13 formats x 18 scalar nodes (6 of them modified after definition), string slices, array elements, plain "
                      "braces, <=3 pieces, adjacent references",
             in_file="numerical / logical / template expressions as node values of float / bool / str nodes in DIP "
@@ -2086,7 +2180,8 @@ MANIFEST = dict(
     text="Complete enumeration of three bounded DIP expression grammars (numerical: <=4 blank-separated + - * / "
          "operators, parentheses and functions nested <=2, unit-carrying literals incl. angle units inside sin/cos, "
          "node references and a custom unit; logical: 6 comparisons incl. relative offsets 1e-9/1e-5/1e-3 at magnitudes "
-         "from 4e-12 to 5e6 in the unit of the node, negation, definedness tests, && || "
+         "from 4e-12 to 5e6 in the unit of the node, zero-valued and negative nodes against zero / negative literals "
+         "with and without (convertible) units on both sides of all six operators, negation, definedness tests, && || "
          "with groups; templates: references with slices and 13 format specs, plain braces, adjacent references) "
          "executed on NumericalSolver/LogicalSolver/TemplateSolver and as node values through DIP.parse, each "
          "compared with a reference evaluator over the generating AST. Coverage statement: every expression within "
